@@ -65,12 +65,18 @@ impl StopwatchStart {
     }
 
     pub(crate) fn snapshot(&self) -> StopwatchSnapshot {
+        // If the stopwatch is currently paused, the time since it was paused
+        // counts as paused, not active.
+        let paused = match &self.pause_state {
+            StopwatchPauseState::Running => self.paused_time,
+            StopwatchPauseState::Paused { paused_at } => self.paused_time + paused_at.elapsed(),
+        };
         StopwatchSnapshot {
             start_time: self.start_time,
             // self.instant is supposed to be monotonic but might not be so on
             // some weird systems. If the duration underflows, just return 0.
-            active: self.instant.elapsed().saturating_sub(self.paused_time),
-            paused: self.paused_time,
+            active: self.instant.elapsed().saturating_sub(paused),
+            paused,
         }
     }
 }
